@@ -14,7 +14,7 @@ RULE = ("status strings, header names and header values drawn over the whole alp
         "x worker class; oracle: if any status/name/value handed to an executed start_response contains CR/LF/NUL or a name is not a "
         "token, nothing of the application's head is on the wire (empty or exactly one server error page); otherwise the head is "
         "line-for-line [status-line, Server, Date, Connection, (Transfer-Encoding)] + one line per accepted header in order, "
-        "hop-by-hop names absent; plain valid inputs must not be refused. non-trivial = a forbidden byte is present or a second "
+        "hop-by-hop names absent; exactly one status line on the wire whatever fails afterwards; plain valid inputs must not be refused. non-trivial = a forbidden byte is present or a second "
         "start_response call occurs; distinct by case hash")
 ASSUMPTIONS = [
     "refusing more than the statement demands (other CTLs, DEL, non-latin-1, odd status strings) is allowed; only inputs that are "
@@ -213,6 +213,12 @@ def run_case(case):
     classes = ["kind:" + kind, "forbidden:%s" % (must_refuse or "no"), "restart:%s" % (("%s/%s%s" % (r["when"], r["exc_info"], "/caught" if rec and rec.get("restart_caught") else "")) if r else "no")]
     nontrivial = bool(must_refuse) or bool(r) or bool(forbidden(r["status"], r["headers"]) if r else None)
     head_end = data.find(b"\r\n\r\n")
+    nstatus = len(re.findall(rb"(?:\A|\n)HTTP/1\.[01] \d{3}", data))
+    if nstatus > 1:
+        # (no generated body contains such a line; error pages echo hostile text HTML- and repr-escaped) a second status line at the start
+        # of a line: an error page or another head spliced behind the first one
+        V("one-head-per-response", "second-status-line-on-the-wire:" + kind, {"count": nstatus}, "exactly one response head")
+        return Outcome(vio, True, classes, sample=_sample(case, data))
     if must_refuse:
         if data and not is_error_page(data):
             V("refused-before-any-byte", "forbidden-%s-reached-the-wire" % must_refuse, None,
